@@ -47,6 +47,21 @@ type Report struct {
 	Explanation string
 	NotDecided  string
 	Assumptions []string
+
+	// only: when non-nil, rules outside the set are ignored (a property reusing part of another property's check)
+	only map[string]bool
+}
+
+// Sub runs another property's check keeping only the named rules.
+func (r *Report) Sub(f func(w *World, r *Report), rules ...string) {
+	saveE, saveN, saveA := r.Explanation, r.NotDecided, r.Assumptions
+	r.only = map[string]bool{}
+	for _, x := range rules {
+		r.only[x] = true
+	}
+	f(r.W, r)
+	r.only = nil
+	r.Explanation, r.NotDecided, r.Assumptions = saveE, saveN, saveA
 }
 
 type RuleStat struct {
@@ -64,6 +79,9 @@ func NewReport(w *World, prop, tier string, seed int64) *Report {
 // Rule declares a rule with its statement and the confirmed floor of
 // instances (vacuity guard).
 func (r *Report) Rule(name, statement string, floor int) {
+	if r.only != nil && !r.only[name] {
+		return
+	}
 	if _, ok := r.Rules[name]; !ok {
 		r.Rules[name] = &RuleStat{Name: name, Statement: statement, Floor: floor}
 		r.ruleOrder = append(r.ruleOrder, name)
@@ -71,6 +89,9 @@ func (r *Report) Rule(name, statement string, floor int) {
 }
 
 func (r *Report) add(rule, construct, where, what string, ok bool, why string) *Obligation {
+	if r.only != nil && !r.only[rule] {
+		return &Obligation{Rule: rule, OK: ok}
+	}
 	st := r.Rules[rule]
 	if st == nil {
 		fatalf("rule %s used before being declared", rule)
@@ -102,7 +123,12 @@ func (r *Report) Check(cond bool, rule, construct, where, what, why string) *Obl
 	return r.Fail(rule, construct, where, what, why)
 }
 
-func (r *Report) Note(format string, a ...any) { r.Notes = append(r.Notes, fmt.Sprintf(format, a...)) }
+func (r *Report) Note(format string, a ...any) {
+	if r.only != nil {
+		return
+	}
+	r.Notes = append(r.Notes, fmt.Sprintf(format, a...))
+}
 
 // ---------------------------------------------------------------------------
 // known findings
